@@ -23,7 +23,7 @@ def check_analysis_divisions(prop, res, repo):
             guarded = any(isinstance(c, tuple) and c[0] == "nonempty" for c in s.facts) or any(
                 isinstance(c, tuple) and c[0] == "cmp" and c[1] in ("<", "!=") and (c[2] == -den or c[2] == den) for c in s.facts
             )
-            if guarded and all(a[0] == "sym" and str(a[1]).startswith("len#") for a in ats):
+            if guarded and all(a[0] == "lenf" for a in ats):
                 res.ok("R-DIV", {"site": f"{fi.module.relpath}:{s.line} {fi.name}", "den": "len(readings)", "why": "dominated by the `if not readings: return` guard"}, nontrivial=f"{fi.name}:{s.line}")
             elif all(a[0] == "cfg" for a in ats):
                 # a length/percentage argument the caller chooses; default values are non-zero constants
